@@ -3,12 +3,19 @@
 From Coq Require Import ZArith NArith List Bool.
 From FR Require Import Dec Types Bank Match Step Genesis Model Spec Checkers.
 From FR.Proofs Require Import InvDefs InvAll ExcessExamples Chk13.
+From FR.Proofs Require ChkCount13.
 Import ListNotations.
 Open Scope Z_scope.
 
 Theorem C13_checker : forall s o, Inv s -> oracle_ok s o -> c13_ok (model_trans s o) = true.
 Proof. intros s o I _. exact (c13_ok_model s o I). Qed.
 Print Assumptions C13_checker.
+
+(* the checker the driver evaluates for C13: c13_ok and c13_count (the count of matched bids that the anti-sniping
+   rule compares with is recorded by blocks only; no message or allow-list call alters it) *)
+Theorem C13_all_checker : forall s o, Inv s -> c13_all (model_trans s o) = true.
+Proof. exact ChkCount13.c13_all_model. Qed.
+Print Assumptions C13_all_checker.
 
 (* the oracle hypothesis is not needed *)
 Theorem C13_checker_any_oracle : forall s o, Inv s -> c13_ok (model_trans s o) = true.
